@@ -136,16 +136,37 @@ func (ff *FuncFlow) classifyErrExpr(p *Program, at ast.Node, e ast.Expr, depth i
 		}
 		return RetTransfer, x
 	case *ast.Ident:
-		// variable known non-nil here?
+		// variable known nil / non-nil here? An error variable is typically re-used: only the
+		// textually latest test of it that holds here, with no assignment to the variable in
+		// between, speaks about its current value.
+		var best ast.Expr
+		bestVal, bestNeg := false, false
 		for leaf, v := range ff.Flow.CondsAt(at) {
 			g := GuardOf(ff.Info, leaf, ff.Errs)
 			if (g.Kind == "nil" || g.Kind == "err") && g.X != nil {
 				if id, ok := ast.Unparen(g.X).(*ast.Ident); ok && ff.Info.Uses[id] == ff.Info.Uses[x] && ff.Info.Uses[x] != nil {
-					if v == g.Neg {
-						return RetFailure, nil
+					if leaf.Pos() < at.Pos() && (best == nil || leaf.Pos() > best.Pos()) {
+						best, bestVal, bestNeg = leaf, v, g.Neg
 					}
-					return RetSuccess, nil
 				}
+			}
+		}
+		if best != nil {
+			reassigned := false
+			if vv, ok := ff.Info.Uses[x].(*types.Var); ok {
+				ld := NewLocalDefs(ff.Info, ff.FD.Decl.Body)
+				for _, d := range ld.All(vv) {
+					// the assignment that the test itself belongs to (if err := f(); err != nil) precedes the leaf
+					if d.Pos > best.Pos() && d.Pos < at.Pos() {
+						reassigned = true
+					}
+				}
+			}
+			if !reassigned {
+				if bestVal == bestNeg {
+					return RetFailure, nil
+				}
+				return RetSuccess, nil
 			}
 		}
 		if v, ok := ff.Info.Uses[x].(*types.Var); ok && v.Pkg() != nil && v.Parent() == v.Pkg().Scope() {
